@@ -369,6 +369,58 @@ def rule_region_closure(chk, prog):
     (r.bad if bad else r.ok)("nudgeOrthogonalRoutes: every member tested", fn.loc(lp), bad or "")
 
 
+def rule_pairwise_stateless(chk, prog):
+    from ..rules.loopstate import carried_locals
+    from ..cfg import CFG
+    r = chk.rule("PAIR-CONSTRAINTS-STATELESS", "nudgeOrthogonalRoutes, the loop that constrains the current segment against every previously "
+                 "seen one: the separation distance and the equality flag of a pair are decided from that pair alone -- no local that "
+                 "is assigned inside the loop carries its value to the next pair (except reviewed accumulators); "
+                 "buildConnectorRouteCheckpointCache tests every checkpoint against every segment and every bend (no early exit)", floor=3)
+    fn = prog.fn("Avoid::ImproveOrthogonalRoutes::nudgeOrthogonalRoutes")
+    lps = [n for n in fn.nodes() if n.get("k") == "ForStmt" and "prevVars.begin()" in norm(n.get("init")) and "prevVars.end()" in norm(n.get("cond"))]
+    if len(lps) != 1:
+        raise AnalysisBroken("nudgeOrthogonalRoutes: loop over prevVars not recognised")
+    carried = carried_locals(fn, lps[0])
+    r.count()
+    bad = [c for c in carried if c[2] is not None]
+    if bad:
+        nm, st, rd = bad[0]
+        r.bad("pair loop: no carried state", fn.loc(st), "`%s` is declared outside the loop over previously seen segments, assigned inside it and "
+              "read at line %s before being re-initialised for the pair: the gap / equality decided for one neighbour is inherited by the "
+              "following, unrelated neighbours" % (nm, rd.get("l")))
+    else:
+        r.ok("pair loop: no carried state", fn.loc(lps[0]))
+    # the constraint of a pair is built from that pair's decision
+    news = [n for n in walk(lps[0]["body"]) if n.get("k") == "CXXNewExpr" and n.get("at") in ("Avoid::Constraint",)]
+    r.count()
+    okc = False
+    if len(news) == 1:
+        ctor = [c for c in news[0]["ch"] if c.get("k") == "CXXConstructExpr"][0]
+        a = [norm(x) for x in ctor["ch"]]
+        okc = a[:2] == ["prevVar", "vs[index]"] and len(a) == 4
+    (r.ok if okc else r.bad)("pair loop: constraint(prev, current, gap, equality)", fn.loc(news[0]) if news else fn.loc(lps[0]),
+                             "" if okc else "the separation constraint of a pair is not Constraint(prevVar, vs[index], gap, equality)")
+    f2 = prog.fn("Avoid::buildConnectorRouteCheckpointCache")
+    g = CFG(f2)
+    cl = [n for n in f2.nodes() if n.get("k") == "ForStmt" and "checkpoints.size()" in norm(n.get("cond"))]
+    r.count()
+    bad = None
+    if len(cl) != 2:
+        bad = "expected the two scans over the checkpoints (on a segment / at a bend), found %d" % len(cl)
+    else:
+        for lp in cl:
+            ini = lp.get("init")
+            if ini is None or ini.get("k") != "DeclStmt" or literal_value(ini["decls"][0].get("init")) != "0":
+                bad = bad or "a checkpoint scan does not start at the first checkpoint"
+            if any(x.get("k") in ("BreakStmt", "ReturnStmt", "GotoStmt") for x in walk(lp["body"])):
+                bad = bad or "a checkpoint scan stops at the first checkpoint found: further checkpoints on the same segment are not " \
+                             "recorded, so the segments next to it are not kept from sliding past them"
+        outer = [n for n in f2.nodes() if n.get("k") == "ForStmt" and "displayRoute.size()" in norm(n.get("cond"))]
+        if not outer or literal_value(outer[0]["init"]["decls"][0].get("init")) != "0":
+            bad = bad or "not every route point is visited"
+    (r.bad if bad else r.ok)("checkpoint cache complete", f2.where(), bad or "")
+
+
 def run(chk):
     prog = chk.load()
     cg = CallGraph(prog)
@@ -377,6 +429,7 @@ def run(chk):
     rule_no_growth(chk, prog, cg)
     rule_limits_narrow(chk, prog)
     rule_region_closure(chk, prog)
+    rule_pairwise_stateless(chk, prog)
     from ..rules import mirrors
     r = chk.rule("MIRROR", "NudgingShiftSegment::lowC/highC and the scan-line helpers firstObstacleAbove/Below, markShiftSegmentsAbove/Below "
                  "stay exact mirror images (tables/mirrors.json)", floor=3)
